@@ -327,6 +327,12 @@ func (f *File) Lower() *descriptorpb.FileDescriptorProto {
 		for j, m := range s.Methods {
 			l.comment([]int32{6, int32(i), 2, int32(j)}, m.Comment)
 			md := &descriptorpb.MethodDescriptorProto{Name: proto.String(m.Name), InputType: proto.String(m.In), OutputType: proto.String(m.Out)}
+			if m.ClientStream {
+				md.ClientStreaming = proto.Bool(true)
+			}
+			if m.ServerStream {
+				md.ServerStreaming = proto.Bool(true)
+			}
 			mo := &descriptorpb.MethodOptions{}
 			hasMO := false
 			if m.HTTP != nil {
